@@ -151,6 +151,98 @@ theorem writeRegister_regs (s : Ay) (cur : Nat) (hc : cur < 16) (v : BitVec 8) (
       intro s a; unfold Ay.decode; split <;> rfl
     rw [hreg]
 
+/-! ### the noise period is programmed by the first write to R6 and stays programmed -/
+
+theorem noise_period_apply (s : Ay) (op : Op) (h : 1 ≤ s.noise.period) : 1 ≤ (s.apply op).noise.period := by
+  cases op with
+  | tick => show 1 ≤ s.noise.tick.period; rw [Noise.tick_period]; exact h
+  | write a v =>
+    show 1 ≤ (s.writeReg a.toNat v).noise.period
+    unfold Ay.writeReg
+    split
+    · exact h
+    · unfold Ay.decode
+      split <;> first | exact h | (show 1 ≤ (Noise.setPeriod _ (_ % 32)).period; rw [setNoise_period]; unfold Spec.eff; split <;> omega)
+
+theorem noise_period_write6 (s : Ay) (v : BitVec 8) : 1 ≤ (s.apply (.write 6 v)).noise.period := by
+  show 1 ≤ (s.writeReg 6 v).noise.period
+  have : s.writeReg 6 v = { s with regs := upd s.regs 6 v, noise := s.noise.setPeriod ((upd s.regs 6 v 6).toNat % 32) } := by
+    simp [Ay.writeReg, Ay.decode]
+  rw [this]
+  show 1 ≤ (Noise.setPeriod _ (_ % 32)).period
+  rw [setNoise_period]; unfold Spec.eff; split <;> omega
+
+/-- once a history contains a write to R6 the noise period is the decoded register, not the power-on 0 -/
+theorem noise_period_programmed (ops : List Op) (s : Ay)
+    (h : 1 ≤ s.noise.period ∨ ∃ v, Op.write 6 v ∈ ops) : 1 ≤ (s.run ops).noise.period := by
+  induction ops generalizing s with
+  | nil =>
+    rcases h with h | ⟨v, hv⟩
+    · exact h
+    · cases hv
+  | cons op t ih =>
+    apply ih
+    rcases h with h | ⟨v, hv⟩
+    · exact Or.inl (noise_period_apply s op h)
+    · rcases List.mem_cons.mp hv with e | hm
+      · subst e; exact Or.inl (noise_period_write6 s v)
+      · exact Or.inr ⟨v, hm⟩
+
+theorem mem_interleave (sched : Nat → Nat) (k : Nat) (l : List Op) (w : Op) (h : w ∈ l) :
+    w ∈ interleave sched k l := by
+  induction l generalizing k with
+  | nil => cases h
+  | cons x t ih =>
+    simp only [interleave, List.mem_append, List.mem_cons]
+    rcases List.mem_cons.mp h with e | hm
+    · exact Or.inr (Or.inl e)
+    · exact Or.inr (Or.inr (ih _ hm))
+
+/-! ### register numbers modulo 16 at the level of histories -/
+
+/-- two port operations that differ at most in the unused upper bits of a register number -/
+def PortOp.congr16 : PortOp → PortOp → Prop
+  | .select v, .select w => v.toNat % 16 = w.toNat % 16
+  | .write v, .write w => v = w
+  | _, _ => False
+
+/-- pointwise `congr16` -/
+def congr16 : List PortOp → List PortOp → Prop
+  | [], [] => True
+  | a :: s, b :: t => PortOp.congr16 a b ∧ congr16 s t
+  | _, _ => False
+
+theorem selectReg_congr (c : Chip) (v w : BitVec 8) (h : v.toNat % 16 = w.toNat % 16) :
+    c.selectReg v = c.selectReg w := by
+  have : (v &&& 0x0F).toNat = (w &&& 0x0F).toNat := by rw [and15_eq_mod, and15_eq_mod, h]
+  unfold Chip.selectReg
+  rw [this]
+
+/-- histories that agree up to the upper bits of the register numbers leave the chip in the same state -/
+theorem Chip.run_congr16 (c : Chip) (h1 h2 : List PortOp) (h : congr16 h1 h2) : Chip.run c h1 = Chip.run c h2 := by
+  induction h1 generalizing c h2 with
+  | nil => cases h2 with
+    | nil => rfl
+    | cons _ _ => cases h
+  | cons a s ih =>
+    cases h2 with
+    | nil => cases h
+    | cons b t =>
+      obtain ⟨hab, hst⟩ := h
+      show Chip.run (c.apply a) s = Chip.run (c.apply b) t
+      have : c.apply a = c.apply b := by
+        cases a <;> cases b
+        · exact selectReg_congr c _ _ hab
+        · cases hab
+        · cases hab
+        · cases hab; rfl
+      rw [this]
+      exact ih _ _ hst
+
+theorem Chip.ext' (a b : Chip) (h1 : a.currentReg = b.currentReg) (h2 : a.regs = b.regs) (h3 : a.ay = b.ay) :
+    a = b := by
+  cases a; cases b; simp_all
+
 end ZxVerif.Ay
 
 /-! ## the bus -/
